@@ -688,6 +688,9 @@ func (g *Gen) Enumerate(depth int, fn func(Case) bool) {
 						if vi == baseIdx(i) && vi < len(al) {
 							continue
 						}
+						if base == "min" && isCountLabel(al[vi].Label) {
+							continue // element-count boundaries are enumerated around the rich base only (cost)
+						}
 						d := append(devs, Dev{i, vi})
 						if !emit(d) {
 							return false
@@ -809,4 +812,10 @@ func (g *Gen) Seeds(structural bool, maxLen int) []Seed {
 		})
 	}
 	return out
+}
+
+// isCountLabel recognises the element-count boundary values (slice:countN, strs:countN, uuids:countN, keys:countN,
+// map:countN, tags:countN-*, tree:wide-*).
+func isCountLabel(l string) bool {
+	return strings.Contains(l, ":count") || strings.HasPrefix(l, "tree:wide-")
 }
